@@ -41,7 +41,13 @@ import (
 	"github.com/mgtv-tech/redis-GunYu/syncer"
 )
 
-var schedKinds = []string{"none", "moved-between", "moved-mid", "ask", "back-forth", "node-added", refreshMidBuild, connReset, connLost, abandonedWorker}
+var schedKinds = []string{"none", "moved-between", "moved-mid", "ask", "back-forth", "node-added", refreshMidBuild, connReset, connLost, abandonedWorker, crossNode}
+
+// crossNode: no topology change at all.  The stream (a standalone source's) carries one two-key
+// DEL / UNLINK / MSET whose keys live in slots of two different nodes: a command no node of the
+// cluster can execute.  The tool may stop and report it (its documented answer to what it cannot
+// replay safely) — it must not acknowledge it, store a position behind it and go on (see crossPlan).
+const crossNode = "cross-node-command"
 
 // abandonedWorker: one batch spans two nodes; node X resets the connection at once, node Y
 // executes the first command of its share and then stalls.  The tool reports the failure and is
@@ -132,6 +138,12 @@ func genCase(i int, r *rand.Rand) caseCfg {
 		c.NCmds = 40 + r.Intn(80)
 		c.BufSize = 64 * 1024
 	}
+	if c.Sched == crossNode {
+		// keys on two nodes exist only behind the non-transactional sender (a transactional one
+		// talks to a single shard, whose keys the stream is confined to)
+		c.Txn = false
+		c.NCmds = 20 + r.Intn(60)
+	}
 	if c.Sched == abandonedWorker {
 		// a batch spanning two nodes exists only behind the non-transactional sender (a
 		// transactional one talks to a single shard), and only the blocking one runs node
@@ -181,6 +193,7 @@ func main() {
 	run.Assume("schedule conn-reset (a connection fault, at the edge of the property's quantifier): a node executes the first k (1–12) commands of a 12–14 MB node batch (64 KiB values; more than the loop-back socket buffers take in, so the client is still writing), then closes the connection with the rest unread (the kernel resets it); later connections are served normally. Expected: the run ends with a reported error and, in transactional mode, no id is applied twice; in non-transactional mode a re-sent batch (repeat from an earlier position) is allowed by the statement")
 	run.Assume("schedule conn-lost-before-reply (connection fault, edge of the quantifier): a node that already served earlier node batches of this client executes a complete small pipelined node batch (2–8 non-idempotent writes, one TCP segment) and closes the connection without having written a reply; later connections are served normally. Expected: reported connection error, nothing applied twice in transactional mode")
 	run.Assume("schedule abandoned-node-worker (blocking non-transactional sender; connection fault, edge of the quantifier): in one batch spanning two nodes, node X closes the connection on the first request of its share and node Y executes the first command of its share and then stops serving that connection; the reported failure is followed by the tool's restart sequence (bookkeeping, StartPoint, Send from the stored position) without waiting for the double to go idle; Y's stall ends when the restarted run has applied a newer write to Y's key (or, where no restart can happen meanwhile, after 2 s — a fallback that decides nothing); connections are attributed to the run during which they were opened")
+	run.Assume("schedule cross-node-command (non-transactional senders; no topology change): the stream carries one two-key DEL / UNLINK / MSET whose keys are owned by two different nodes; in two of three cases everything before it has been applied when it is handed out and the source is silent behind it for three periods of the sender's slowest ticker. No node can execute it (the double would answer MOVED/CROSSSLOT); a run that ends with a reported error is the tool's documented answer, a run that goes on must not have stored a position behind it")
 	run.Assume("quiescence = the sender stored the stream's end offset as resume position (it consumed every item and flushed its queue) and 4 keep-alive PING batches were served afterwards (at most 3 batches are in flight behind the dispatcher)")
 
 	harness.Parallel(n, 16, func(i int) {
@@ -254,7 +267,17 @@ type abandonPlan struct {
 	keyY     string
 }
 
+// crossPlan: where the cross-node command sits in the stream.  In two of three cases the source
+// is silent behind it for longer than every ticker of the sender, so that the command is alone
+// in the sender's queue when the batch / keep-alive / checkpoint tickers fire.
+type crossPlan struct {
+	off, offAfter int64 // the command's bytes
+	id            string
+	alone         bool
+}
+
 type workload struct {
+	cross  *crossPlan
 	aban   *abandonPlan
 	mid    *midBuild
 	reset  *resetPlan
@@ -447,6 +470,32 @@ func genWorkload(r *rand.Rand, cc caseCfg, tags []*tagT, hist string) *workload 
 			add(gen.KExec, "EXEC", nil, "", g)
 		default:
 			write(-1)
+		}
+	}
+	if cc.Sched == crossNode {
+		var ta, tb *tagT
+		for try := 0; try < 200 && (ta == nil || ta.node == tb.node); try++ {
+			ta, tb = tags[r.Intn(len(tags))], tags[r.Intn(len(tags))]
+		}
+		if ta != nil && ta.node != tb.node {
+			id := fmt.Sprintf("~%s.%d~", hist, nextID)
+			nextID++
+			ta.uses++
+			tb.uses++
+			p := &crossPlan{off: int64(len(st.Bytes)), id: id, alone: r.Intn(3) != 0}
+			switch r.Intn(3) {
+			case 0:
+				ka, kb := ta.key("s1"), tb.key("s2")
+				emit("mset", [][]byte{b(ka), b(id + "v"), b(kb), b("w")}, []string{ka, kb}, id, -1)
+			default:
+				ka, kb := ta.key([]string{"s1", "l", "h"}[r.Intn(3)]), tb.key("gone"+id)
+				emit([]string{"del", "unlink"}[r.Intn(2)], [][]byte{b(ka), b(kb)}, []string{ka, kb}, id, -1)
+			}
+			p.offAfter = int64(len(st.Bytes))
+			for i, n := 0, 5+r.Intn(20); i < n; i++ {
+				write(-1)
+			}
+			w.cross = p
 		}
 	}
 	if cc.Sched == abandonedWorker {
@@ -1061,7 +1110,7 @@ func oneCase(run *harness.Run, key string, idx int, r *rand.Rand, cc caseCfg) {
 	cpAtEnd := make(chan struct{})
 	var cpOnce sync.Once
 	var part1Hook func(id string)
-	var resetArmed, resetFired, heavyHeld atomic.Bool
+	var resetArmed, resetFired, heavyHeld, crossHanded atomic.Bool
 	// waitApplied returns a channel closed once every id of the set has been applied (to be
 	// called before the replay starts)
 	var hooks []func(id string)
@@ -1151,6 +1200,31 @@ func oneCase(run *harness.Run, key string, idx int, r *rand.Rand, cc caseCfg) {
 		plan = append(drive.Plan(r, st.Bytes[:cutOff], cc.PauseUnit, cc.PlanStyle),
 			drive.Step{Gate: gate})
 		plan = append(plan, drive.Plan(r, st.Bytes[cutOff:], cc.PauseUnit, cc.PlanStyle)...)
+	} else if p := w.cross; p != nil {
+		// everything before the cross-node command | (alone: gate: all of it applied, the sender's
+		// queue is empty) | the command | (alone: the source is silent for three periods of the
+		// slowest ticker) | the rest
+		plan = drive.Plan(r, st.Bytes[:p.off], cc.PauseUnit, cc.PlanStyle)
+		cmdStep := drive.Step{Data: st.Bytes[p.off:p.offAfter], Then: func() { crossHanded.Store(true) }}
+		if p.alone {
+			before := map[string]bool{}
+			for _, x := range w.writes {
+				if st.Cmds[x.cmd].Start < p.off {
+					before[x.id] = true
+				}
+			}
+			cmdStep.Gate = waitApplied(before)
+			slowest := cc.CpTicker
+			for _, d := range []time.Duration{cc.BatchTicker, cc.KeepAlive} {
+				if d > slowest {
+					slowest = d
+				}
+			}
+			plan = append(plan, cmdStep, drive.Step{Pause: 3 * slowest})
+		} else {
+			plan = append(plan, cmdStep)
+		}
+		plan = append(plan, drive.Plan(r, st.Bytes[p.offAfter:], cc.PauseUnit, cc.PlanStyle)...)
 	} else if p := w.aban; p != nil {
 		// everything before the two-node batch | gate: both faults armed | the batch in one piece
 		// | the rest.  X closes the connection on the first request of its share; Y stalls after
@@ -1766,7 +1840,7 @@ func oneCase(run *harness.Run, key string, idx int, r *rand.Rand, cc caseCfg) {
 	}
 
 	// ---- coverage
-	fired := cc.Sched == "none" || len(cl.Events()) > 0 || resetFired.Load() // at least one scripted change / fault happened during the replay
+	fired := cc.Sched == "none" || len(cl.Events()) > 0 || resetFired.Load() || crossHanded.Load() // at least one scripted change / fault happened during the replay
 	oSig := oc.kind
 	if oc.kind == "error" {
 		oSig = "error:" + errClass(oc.err)
@@ -1805,6 +1879,16 @@ func oneCase(run *harness.Run, key string, idx int, r *rand.Rand, cc caseCfg) {
 		}
 		if stallByEvent.Load() {
 			run.Count("abandoned_worker_stall_released_by_newer_write_of_restarted_run", 1)
+		}
+	}
+	if w.cross != nil {
+		run.Count("cross_node_command_runs", 1)
+		if crossHanded.Load() {
+			run.Count("cross_node_command_consumed_by_the_tool", 1)
+			if w.cross.alone {
+				run.Count("cross_node_command_alone_in_the_queue_for_three_ticker_periods", 1)
+			}
+			run.Count("cross_node_command_runs_"+oc.kind, 1)
 		}
 	}
 	if w.lost != nil {
